@@ -19,6 +19,7 @@ CHECKS = {
  "C11": ("MC_Remap", "every partial map over 4 names x every strict converter of <=2 records with <=1 synonym: documented errors, no prefix lost, URI side untouched"),
  "C12": ("MC_Derive", "every injective map (<=1 pair quick, <=2 thorough) for remap_uri_prefixes and rewire; rewire applied twice for idempotence"),
  "C13": ("MC_Build", "every small prefix map / priority map / reverse map / JSON-LD context / non-bijective map for upgrade_prefix_map, all dictionary orders; loading via object, str path and Path"),
+ "C15": ("MC_Refs", "every heap of <=2 (thorough 3) references built through every constructor over prefixes {'', a, A}, identifiers with and without separators, names, 1- and 2-character separators, with/without a context converter: parse-print inverse, split-at-first, equivalence/hash/order laws; replayed on the four classes incl. JSON, immutability, triples files (plain and gzip)"),
  "C17": ("MC_Web", "every request path <=7 (thorough 9) characters over {x, y, ':', '/'} against colon- and slash-delimited converters: framework routing (greedy prefix) + re-split at the first delimiter = expand_pair; each request is sent to the Flask and the FastAPI app in-process"),
  "C18": ("MC_Web", "every Accept header of <=3 (thorough 4) parts over supported/synonym/unsupported types x 3 q-values (16 optional-whitespace renderings when replayed); every URI <=5 characters against a converter with an IRI-invalid synonym; SPARQL answers for both directions, both VALUES placements, graph.query with/without the custom processor, Flask GET/POST"),
  "C19": ("MC_Discover", "every sequence (order, repetition) of <=2 URIs over {alnum, /, #, _, github head, issues} x delimiter lists x cutoffs x metaprefix x pre-existing converter; rotations/duplications give the same converter; calls replayed with list/set/generator/tuple iterables"),
